@@ -212,6 +212,18 @@ fn exec(c: &Ctx, op: &Value) -> Value {
             "cold_umeta" => json!({"ok": c.eng.cold_tier().update_metadata(id, meta.clone(), true).is_ok()}),
             "cold_bdelete" => json!({"ok": c.eng.cold_tier().batch_delete(&[1, 3]).is_ok()}),
             "log_search" => json!({"n": c.eng.log_served_search_accesses(&[1, 2, 3])}),
+            // public entry points the server (or its start-up / usage code) calls that the ops above do not go through
+            "fdel_closure" => json!({"ok": c.eng.batch_delete_by_filter(|m| m.get("k1").map(|x| x == "val9").unwrap_or(false)).is_ok()}),
+            "get_src" => json!({"found": c.eng.query_with_source(id, None).is_some()}),
+            "bulkget_src" => json!({"n": c.eng.bulk_query_with_source(&[1, 3, 77], true).iter().filter(|x| x.is_some()).count()}),
+            "bulkget_src_nometa" => json!({"n": c.eng.bulk_query_with_source(&[1, 3, 77], false).iter().filter(|x| x.is_some()).count()}),
+            "hot_scan" => json!({"n": c.eng.hot_tier().scan(|_| true).len()}),
+            "hot_misc" => json!({"n": c.eng.hot_tier().len(), "e": c.eng.hot_tier().exists(1), "ids": c.eng.hot_tier().snapshot_doc_ids().len(),
+                                 "h": c.eng.hot_tier().hit_rate(), "nf": c.eng.hot_tier().needs_flush()}),
+            "cold_misc" => json!({"n": c.eng.cold_tier().len(), "e": c.eng.cold_tier().exists(3), "w": c.eng.cold_tier().is_wal_inconsistent(),
+                                  "f": c.eng.cold_tier().wal_writes_failed(), "t": c.eng.cold_tier().current_coherence_token(3).is_some()}),
+            "cold_bulk_fetch" => json!({"n": c.eng.cold_tier().bulk_fetch(&[1, 3, 77]).len() + c.eng.cold_tier().bulk_fetch_with_coherence(&[1, 3]).len()}),
+            "cold_knn" => json!({"ok": c.eng.cold_tier().knn_search(&c.fam.input(1), 2).is_ok()}),
             _ => json!({"unknown": t}),
         })
     });
@@ -264,6 +276,15 @@ fn catalogue() -> Vec<(&'static str, Value)> {
         ("cold_umeta", json!({"t": "cold_umeta", "id": 3, "m": m1})),
         ("cold_bdelete", json!({"t": "cold_bdelete"})),
         ("log_search", json!({"t": "log_search"})),
+        ("fdel_closure", json!({"t": "fdel_closure"})),
+        ("get_src", json!({"t": "get_src", "id": 3})),
+        ("bulkget_src", json!({"t": "bulkget_src"})),
+        ("bulkget_src_nometa", json!({"t": "bulkget_src_nometa"})),
+        ("hot_scan", json!({"t": "hot_scan"})),
+        ("hot_misc", json!({"t": "hot_misc"})),
+        ("cold_misc", json!({"t": "cold_misc"})),
+        ("cold_bulk_fetch", json!({"t": "cold_bulk_fetch"})),
+        ("cold_knn", json!({"t": "cold_knn"})),
     ]
 }
 
